@@ -1,0 +1,5 @@
+//go:build !verif
+
+package sourcerunner
+
+func (r *SourceRunner) verifRetune() {}
